@@ -1043,6 +1043,72 @@ theorem poolStartsFrom_of_C09 {X : Exec} {Y : Ecal.Pool.Exec} (hc : PoolCoupling
   · have := hc.live m
     omega
 
+/-- the coupling reduced to what a step-level simulation for push/pop has to deliver FROM tick `N` on:
+    at `N` the pool's queue holds as many tasks as the cascades have queued; from then on a `Pop` is
+    taken at the pool level exactly at the ticks at which a cascade task is popped; the pool keeps a
+    live worker. (The per-step part of the simulation is proved: `queue_tracks_queued`.) -/
+structure PoolSyncFrom (X : Exec) (Y : Ecal.Pool.Exec) (N : Nat) : Prop where
+  start : (Y.C N).queue.length = (X.C N).queuedCount
+  pops  : ∀ n, N ≤ n → (Y.took Ecal.Pool.isPop n ↔ X.tookPop n)
+  live  : ∀ n, N ≤ n → 0 < (Y.C n).live
+
+/-- **the proved direction of the simulation, queue component**: projecting a `Conc` state to the
+    number of its queued tasks (`Conc.queuedCount`) and a pool state to the length of its queue, every
+    step of either model moves its projection the same way — +1 for a push (`addEvent _ true _` /
+    `aPush`), −1 for a pop, 0 for every other event (`conc_queuedCount_step`, `Ecal.Pool.queue_length_step`,
+    all events of both models, no resize/join restriction needed for this component). Hence, once no
+    work is added / no pool call is made after `N` and the pops are synchronised, the pool's queue
+    length equals the number of queued cascade tasks at every tick `n ≥ N`. -/
+theorem queue_tracks_queued {X : Exec} {Y : Ecal.Pool.Exec} {N : Nat} (hsync : PoolSyncFrom X Y N)
+    (ha : X.AddsStopAt N) (hc : Y.CallsStopAt N) :
+    ∀ n, N ≤ n → (Y.C n).queue.length = (X.C n).queuedCount := by
+  intro n hn
+  obtain ⟨d, rfl⟩ := Nat.exists_eq_add_of_le hn
+  induction d with
+  | zero => simpa using hsync.start
+  | succ d ih =>
+    have hprev := ih (by omega)
+    have hx := exec_queued_tick X ha (n := N + d) (by omega)
+    have hy := Ecal.Pool.exec_queue_tick Y hc (n := N + d) (by omega)
+    have hiff := hsync.pops (N + d) (by omega)
+    rw [show N + (d + 1) = N + d + 1 by omega]
+    by_cases hp : X.tookPop (N + d)
+    · have h1 := hx.1 hp
+      have h2 := hy.1 (hiff.mpr hp)
+      omega
+    · have h1 := hx.2 hp
+      have h2 := hy.2 (fun h => hp (hiff.mp h))
+      omega
+
+/-- non-vacuity of `PoolSyncFrom` / `queue_tracks_queued`: the coupled pair `cX`/`cY` from tick 3 on
+    (one task queued on both sides at tick 3, popped on both sides at tick 3, nothing added later) -/
+example : PoolSyncFrom cX Ecal.Pool.cY 3 ∧ cX.AddsStopAt 3 ∧ Ecal.Pool.cY.CallsStopAt 3 :=
+  ⟨⟨by rw [Ecal.Pool.cY_queue_length_at_3, cX_queuedCount_at_3],
+    fun n _ => ⟨fun h => by rw [Ecal.Pool.cY_pop_only_at_3 n h]; exact cX_pop_at_3,
+                fun h => by rw [cX_tookPop_only_at_3 n h]; exact Ecal.Pool.cY_took_pop_3⟩,
+    fun n _ => Ecal.Pool.cY_live n⟩, cX_addsStop, Ecal.Pool.cY_callsStop⟩
+
+/-- **the pool side of fairness from C09, with the queue tracked by the simulation**: like
+    `poolStartsFrom_of_C09`, but the hypothesis "a queued cascade task ⇒ the pool's queue is non-empty"
+    is no longer assumed at every tick — it follows from `queue_tracks_queued` given the equality at
+    tick `N` and synchronised pops. -/
+theorem poolStartsFrom_of_C09_sync {X : Exec} {Y : Ecal.Pool.Exec} {N : Nat} (hsync : PoolSyncFrom X Y N)
+    (hf : Y.Fair) (hc : Y.CallsStopAt N) (ha : X.AddsStopAt N) : X.PoolStartsFrom N := by
+  intro n hn hq
+  have hlen := queue_tracks_queued hsync ha hc n hn
+  have hpos := queuedCount_pos_of_taskQueued hq
+  have hne : (Y.C n).queue ≠ [] := by
+    intro h
+    rw [h] at hlen
+    simp at hlen
+    omega
+  have hNn : Y.CallsStopAt n := fun k hk e he => hc k (by omega) e he
+  obtain ⟨m, hm, h⟩ := Ecal.Props.C09.fair_queued_task_started Y hf hNn hne
+  rcases h with h | h
+  · exact ⟨m, hm, Or.inl ((hsync.pops m (by omega)).mp h)⟩
+  · have := hsync.live m (by omega)
+    omega
+
 /-- **the wait returns — fairness traced back to its sources**: scheduler fairness for the non-pop
     engine steps of the cascades (`SchedFairFrom`, assumed), a coupled pool execution that is fair in
     C09's sense and makes no new call after `N` (the pop side is then C09's theorem), no work added
